@@ -164,6 +164,12 @@ def _k_odt(c) -> CaseInfo:
     z = a.in_fixed_zone()
     need(inst_ns(z.to_instant()) == i and z.offset.seconds == o and z.calendar is cal and z.local_date_time == a.local_date_time, "in_fixed_zone")
     need(z.to_offset_date_time() == a, "in_fixed_zone/to_offset_date_time")
+    # the fixed zone must really have this offset, so that adding a duration re-derives the same offset
+    zo = z.zone.get_utc_offset(I).seconds
+    need(zo == o and z.zone.min_offset.seconds == o and z.zone.max_offset.seconds == o, "in_fixed_zone/zone-offset", f"offset {o}: zone {z.zone.id} reports {zo}")
+    if INST_MIN <= i + d <= INST_MAX and in_cal(cid, i + d + o * SEC):
+        zd = z + D
+        need(inst_ns(zd.to_instant()) == i + d and zd.offset.seconds == o and zd.calendar is cal and zd.zone is z.zone, "in_fixed_zone/add-duration", f"offset {o}: after + {d} ns offset {zd.offset.seconds}")
     nt = nt or double or not ok_add or not ok_sub
     return CaseInfo(bool(nt), "odt:double-carry" if double else ("odt:edge" if not (ok_add and ok_sub) else "odt"))
 
@@ -178,6 +184,8 @@ def _k_zdt(c) -> CaseInfo:
     cal = pyo.cal(cid)
     I = inst(i)
     o = zone.get_utc_offset(I).seconds
+    if zid.startswith("fixed:"):
+        need(o == int(zid[6:]), "fixed-zone-offset", f"for_offset({zid[6:]}) reports {o}")
     total = i + o * SEC
     ok = in_cal(cid, total)
     try:
@@ -229,7 +237,8 @@ def task_hyp(ctx: Ctx, shard: int, n: int) -> None:
     s = sub_seed(ctx.seed, "c11", shard)
     all_ids = sorted(DateTimeZoneProviders.tzdb.ids)
     extra = [all_ids[(sub_seed(ctx.seed, "zones", shard, k)) % len(all_ids)] for k in range(12)]
-    zones = ZONE_IDS + extra + ["fixed:0", "fixed:64800", "fixed:-64800", "fixed:1", "fixed:-1799", "fixed:20700"]
+    zones = ZONE_IDS + extra + ["fixed:0", "fixed:64800", "fixed:-64800", "fixed:1", "fixed:-1799", "fixed:20700", "fixed:-44100", "fixed:31500", "fixed:45900", "fixed:900", "fixed:-2700", "fixed:12345", "fixed:-33333"]
+    zones += [f"fixed:{(sub_seed(ctx.seed, 'fz', shard, k) % 129601) - 64800}" for k in range(6)]
     units = (100, 10**3, 10**6, SEC, 60 * SEC, 3600 * SEC, DAY, 7 * DAY)
     instants = st.one_of(
         ints_biased(INST_MIN, INST_MAX, units),
@@ -258,6 +267,16 @@ def task_hyp(ctx: Ctx, shard: int, n: int) -> None:
         ii = max(INST_MIN, min(INST_MAX, ii))
         ctx.case("odt", {"i": ii, "o": o, "cal": cid, "o2": o2, "cal2": cid2, "d": d, "i2": i2})
         ctx.case("odt", {"i": i, "o": o, "cal": "ISO", "o2": -o if near % 2 else o2, "cal2": cid2, "d": d, "i2": i2})
+        # an offset change of more than 24 h that lands exactly on (or 1 ns around) a day boundary: double carry
+        lo_o, hi_o = min(o, o2), max(o, o2)
+        if hi_o - lo_o > 86400 // 2:
+            day0 = (i // DAY) * DAY
+            for nod_local, oo, oo2 in ((2 * DAY - (hi_o - lo_o) * SEC, lo_o, hi_o), ((hi_o - lo_o) * SEC - DAY, hi_o, lo_o)):
+                if 0 <= nod_local < DAY:
+                    for dl in (0, -1, 1):
+                        ix = day0 + nod_local + dl - oo * SEC
+                        if INST_MIN <= ix <= INST_MAX:
+                            ctx.case("odt", {"i": ix, "o": oo, "cal": cid if near % 2 else "ISO", "o2": oo2, "cal2": cid2, "d": d, "i2": i2})
         ctx.case("zdt", {"i": ii, "zone": zid, "cal": cid, "d": d})
         ctx.case("zdt", {"i": i, "zone": zid, "cal": "ISO", "d": d})
 
